@@ -46,12 +46,15 @@ def spec_stream(ctx: Ctx, n_random: int, *, catalogue=True, safe_ratio=0.5, avoi
     for i in range(n_random):
         safe = rng.random() < safe_ratio
         sz = size or rng.choice([2, 3, 4, 4, 5, 6])
-        files = specgen.random_spec(rng, size=sz, roundtrip_safe=safe, avoid_known_bugs=avoid_known_bugs)
+        # every third specification may use the constructs that used to trip generator defects
+        # (optional arrays, optional length-prefixed fields, optionals around switch cases)
+        akb = avoid_known_bugs and (i % 3 != 2)
+        files = specgen.random_spec(rng, size=sz, roundtrip_safe=safe, avoid_known_bugs=akb)
         why = degenerate_reason(files)
         if why:
             ctx.count("spec.skipped_degenerate")
             continue
-        yield Case(files, f"random-{i}", {"roundtrip_safe": safe, "size": sz, "avoid_known_bugs": avoid_known_bugs})
+        yield Case(files, f"random-{i}", {"roundtrip_safe": safe, "size": sz, "avoid_known_bugs": akb})
 
 
 def degenerate_reason(files) -> str | None:
